@@ -1041,9 +1041,9 @@ func init() {
 			"icon ids are 2-byte values, or 4-byte integers whose value fits 16 bits (a listed record has room for 2 bytes)",
 			"fewer than 65 535 users connected at once (the allocator loop needs a free id)",
 		}
-		x.Add(&Family{Name: "presence-history", Quick: 1500, Thor: 40000, Run: runPresenceHistory})
-		x.Add(&Family{Name: "id-wrap", Quick: 400, Thor: 10000, Run: runIDWrap})
-		x.Add(&Family{Name: "long-wrap", Quick: 1, Thor: 5, Run: runLongWrap})
-		x.Add(&Family{Name: "targeted", Quick: 48, Thor: 600, Run: runTargeted})
+		x.Add(&Family{Name: "presence-history", Quick: 1500, Thor: 120000, Run: runPresenceHistory})
+		x.Add(&Family{Name: "id-wrap", Quick: 400, Thor: 30000, Run: runIDWrap})
+		x.Add(&Family{Name: "long-wrap", Quick: 1, Thor: 16, Run: runLongWrap})
+		x.Add(&Family{Name: "targeted", Quick: 48, Thor: 1600, Run: runTargeted})
 	}
 }
